@@ -607,6 +607,33 @@ def locator_selftest(fx, rng, sample_body):
     return len(secrets)
 
 
+def selftest_records(recs, rng):
+    """(record, expected key | None) pairs for the binding self-test: built from real 200 answers that show nothing"""
+    blank = [r for r in recs if r["status"] == 200 and not r["found"]]
+    if len(blank) < 10:
+        raise vf.NoVerdict("self-test: too few answers without findings to build on")
+    base = dict(store="control", name="", marks=[], enc="raw", where="body", label="selftest")
+    muts = []
+
+    def inj(f, expect):
+        m = json.loads(json.dumps(rng.choice(blank)))
+        m["phase"] = "selftest"
+        m["found"] = [dict(base, **x) for x in f]
+        muts.append((m, (m["route"] + "/" + expect) if expect not in (None, "not-a-case") else expect))
+    for st in ("userhash", "dsnpassword", "dsnstored", "clientsecret", "clienthash", "signingkey"):
+        inj([dict(store=st, enc=rng.choice(["raw", "base64", "base64url", "hex", "HEX", "urlescaped", "jsonescaped"]))], st)
+    for n in NAMED:
+        inj([dict(), dict(store="setting", name=n, where=rng.choice(["body", "header"]))], "setting:" + n)
+    inj([dict(store="setting", name="x.password.y", marks=["password"])], "setting:*password*")
+    inj([dict(store="setting", name="x.credentials", marks=["credentials"]), dict(store="unclaimed")], "setting:*credentials*")
+    inj([dict(store="nosuchstore")], "not-a-case")
+    inj([dict(store="setting", name="a.b", marks=["secretish"])], "not-a-case")
+    inj([dict(store="userhash", enc="rot13")], "not-a-case")
+    inj([dict(), dict(store="unclaimed", enc="hex", where="header"), dict(store="setting", name="app.plain")], None)
+    inj([dict(store="setting", name="ego.server.token.expiration")], None)
+    return muts
+
+
 def run_config(chk, sd, ego, names, rng, thorough, mode, loggers, replay_route=None):
     fx = Fixture(sd, ego, rng, mode=mode, loggers=loggers)
     try:
@@ -720,11 +747,29 @@ def run():
                 ok200 = {r["route"] for r in recs if r["status"] == 200}
                 if len(ok200) < 40:
                     raise vf.NoVerdict("degenerate run: only %d routes answered 200 (%s)" % (len(ok200), rec.hist))
-            io = vf.write_ndjson(os.path.join(sd, "io-%s-%d.ndjson" % (mode, len(summary))), recs)
+            # the binding self-test rides in the same contract run (first configuration): records that show nothing get one
+            # finding of every secret class injected and must be rejected with the expected key; open values must be accepted
+            muts = selftest_records(recs, rng) if (not summary and not replay) else []
+            io = vf.write_ndjson(os.path.join(sd, "io-%s-%d.ndjson" % (mode, len(summary))), recs + [m for m, _ in muts])
             n, bad = vf.fio_validate(chk, SPEC, "Secrets_Trace", "Secrets_Trace.cfg", sd, io,
                                      name="contract IsSecret over real responses (%s store, loggers %s)" % (mode, loggers), timeout=1500)
-            if n != len(recs):
-                raise vf.NoVerdict("contract saw %d of %d records" % (n, len(recs)))
+            if n != len(recs) + len(muts):
+                raise vf.NoVerdict("contract saw %d of %d records" % (n, len(recs) + len(muts)))
+            if muts:
+                got = {}
+                for b in bad:
+                    if b["idx"] > len(recs):
+                        got.setdefault(b["idx"] - len(recs), set()).add(b["key"])
+                missed = [exp for k, (_m, exp) in enumerate(muts) if exp is not None and got.get(k + 1, set()) != {exp}]
+                wrong = [got[k + 1] for k, (_m, exp) in enumerate(muts) if exp is None and got.get(k + 1)]
+                if missed:
+                    raise vf.NoVerdict("binding self-test failed: injected secret findings not rejected with the expected key: %s" % missed)
+                if wrong:
+                    raise vf.NoVerdict("binding self-test failed: a record showing only open values was rejected: %s" % wrong)
+                chk.cov["binding_selftest"] = ("%d records with an injected finding all rejected with the expected key, %d records with open "
+                                               "values accepted" % (sum(1 for _m, e in muts if e), sum(1 for _m, e in muts if e is None)))
+                bad = [b for b in bad if b["idx"] <= len(recs)]
+                n = len(recs)
             if any(b["key"] == "not-a-case" for b in bad):
                 raise vf.NoVerdict("the log contains records outside the contract's domain (WF failed)")
             for b in sorted(bad, key=lambda b: (b["key"], b["idx"])):
@@ -749,39 +794,6 @@ def run():
             chk.cov["rule"] = "replay of one route"
             return chk.finish()
 
-        # ---- binding self-test: the contract must reject every class of secret finding injected into accepted records
-        recs, badidx = allrecs[0]
-        good = [r for k, r in enumerate(recs) if (k + 1) not in badidx and r["status"] == 200]
-        if len(good) < 20:
-            raise vf.NoVerdict("self-test: too few accepted records")
-        muts = []
-        def inj(f, expect):
-            m = json.loads(json.dumps(rng.choice(good)))
-            m["found"] = m["found"] + [dict(dict(store="control", name="", marks=[], enc="raw", where="body", label="selftest"), **f)]
-            muts.append((m, m["route"] + "/" + expect if expect != "not-a-case" else expect))
-        for st in ("userhash", "dsnpassword", "dsnstored", "clientsecret", "clienthash", "signingkey"):
-            inj(dict(store=st, enc=rng.choice(["raw", "base64", "hex"])), st)
-        for n in NAMED:
-            inj(dict(store="setting", name=n, where=rng.choice(["body", "header"])), "setting:" + n)
-        inj(dict(store="setting", name="x.password.y", marks=["password"]), "setting:*password*")
-        inj(dict(store="setting", name="x.credentials", marks=["credentials"]), "setting:*credentials*")
-        inj(dict(store="nosuchstore"), "not-a-case")
-        inj(dict(store="setting", name="a.b", marks=["secretish"]), "not-a-case")
-        ctl = json.loads(json.dumps(rng.choice(good)))
-        ctl["found"] = ctl["found"] + [dict(store="control", name="", marks=[], enc="raw", where="body", label="x"),
-                                       dict(store="unclaimed", name="", marks=[], enc="hex", where="header", label="y"),
-                                       dict(store="setting", name="app.plain", marks=[], enc="raw", where="body", label="z")]
-        st = vf.write_ndjson(os.path.join(sd, "selftest.ndjson"), [m for m, _ in muts] + [ctl])
-        n2, bad2 = vf.fio_validate(chk, SPEC, "Secrets_Trace", "Secrets_Trace.cfg", sd, st, name=None, timeout=600)
-        got = {}
-        for b in bad2:
-            got.setdefault(b["idx"], set()).add(b["key"])
-        missed = [exp for k, (_m, exp) in enumerate(muts) if exp not in got.get(k + 1, set())]
-        if n2 != len(muts) + 1 or missed:
-            raise vf.NoVerdict("binding self-test failed: injected secret findings accepted by the contract: %s" % missed)
-        if got.get(len(muts) + 1):
-            raise vf.NoVerdict("binding self-test failed: a record showing only open values was rejected: %s" % got[len(muts) + 1])
-        chk.cov["binding_selftest"] = "%d records with an injected finding all rejected with the expected key, 1 record with open values accepted" % len(muts)
         chk.cov["rule"] = ("responses = every GET/POST route of the server's own route dump requested as administrator with path parameters "
                            "instantiated by the fixture's objects + every setting name of defs.ValidSettings/RestrictedSettings/ReadonlySetting/"
                            "encryptedKeyValue and every planted name requested individually from POST /admin/config in 3 spellings + a second pass "
